@@ -1,5 +1,5 @@
 """Run Verus on a generated unit and collect per-function results."""
-import os, json, subprocess, time, hashlib
+import os, json, subprocess, time, hashlib, re
 from . import unitgen, rsx
 
 ROOT = os.path.dirname(os.path.dirname(os.path.abspath(__file__)))
@@ -134,6 +134,12 @@ def run_unit(name, rlimit=None, extra_args=(), expanded_src=None, use_cache=True
                    text=((prim or {}).get("text") or [{}])[0].get("text", "").strip() if prim else "",
                    props=e.props if e else [], cases=e.cases if e else [],
                    src="%s:%s" % (e.file, e.src_line) if e else None)
+        if e is None and gl is not None:
+            mm = re.search(r'/\*@props ([A-Z0-9,]+) ([^*]*)\*/', text.split('\n')[gl - 1])
+            if mm:
+                rec["props"] = mm.group(1).split(',')
+                rec["fn_name"] = mm.group(2).strip()
+                rec["fn_key"] = "tagged:" + mm.group(2).strip()
         if gl is not None and "vc_canary_must_fail" in text.split('\n')[gl - 1]:
             r.canary_ok = True
             continue
@@ -148,7 +154,7 @@ def run_unit(name, rlimit=None, extra_args=(), expanded_src=None, use_cache=True
                                 "invariant not satisfied", "possible arithmetic underflow/overflow",
                                 "possible bit shift underflow/overflow", "possible division by zero",
                                 "decreases not satisfied", "index out of bounds", "may panic", "loop invariant",
-                                "unreachable", "out of range", "possible")):
+                                "unreachable", "out of range", "possible", "which evaluates to false")):
             e["kind"] = "failed-obligation"
             real.append(e)
         elif "rlimit" in m.lower() or "resource limit" in m.lower():
